@@ -1304,6 +1304,41 @@ fn constructors_arr<const N: usize>(base: u64) -> Outcome {
     let k = ok(HeapByteArray::<N>::try_from(&src[..]).map_err(|e| format!("{:?}", e)).and_then(|x| x.mlock().map_err(|e| format!("{:?}", e))), "Lockable::mlock")?;
     check("Lockable::mlock", reg(k.as_slice()), "rw-", true, true)?;
     same("Lockable::mlock", &src, k.as_slice())?;
+    // the generic constructor traits of dryoc::types, as the object API's generic code reaches a locked output container
+    op("<Locked<HeapByteArray> as NewBytes>::new_bytes");
+    let mut nb = <Locked<HeapByteArray<N>> as NewBytes>::new_bytes();
+    if nb.len() != N {
+        return fail(N.to_string(), nb.len().to_string(), detail(format!("<Locked<HeapByteArray<{}>> as NewBytes>::new_bytes(): length of the region", N)));
+    }
+    check("<Locked<HeapByteArray> as NewBytes>::new_bytes", reg(nb.as_slice()), "rw-", true, true)?;
+    same("<Locked<HeapByteArray> as NewBytes>::new_bytes", &vec![0u8; N], nb.as_slice())?;
+    nb.as_mut_slice().copy_from_slice(&src);
+    check("new_bytes, written", reg(nb.as_slice()), "rw-", true, true)?;
+    op("new_bytes -> mprotect_readonly");
+    let nb = ok(nb.mprotect_readonly(), "mprotect_readonly")?;
+    check("new_bytes -> read-only", reg(nb.as_slice()), "r--", true, true)?;
+    same("new_bytes -> read-only", &src, nb.as_slice())?;
+    op("new_bytes -> mprotect_readonly -> mprotect_readwrite");
+    let nb = ok(nb.mprotect_readwrite(), "mprotect_readwrite")?;
+    check("new_bytes -> read-only -> read-write", reg(nb.as_slice()), "rw-", true, true)?;
+    same("new_bytes -> read-only -> read-write", &src, nb.as_slice())?;
+    op("from_slice_into_locked");
+    let fl = ok(HeapByteArray::<N>::from_slice_into_locked(&src), "from_slice_into_locked")?;
+    check("from_slice_into_locked", reg(fl.as_slice()), "rw-", true, true)?;
+    same("from_slice_into_locked", &src, fl.as_slice())?;
+    // through a generic function that only knows the trait bound (as GenericHash / Kdf / Session outputs do)
+    fn generic_new<const M: usize, T: NewByteArray<M>>() -> T {
+        T::new_byte_array()
+    }
+    fn generic_bytes<T: NewBytes>() -> T {
+        T::new_bytes()
+    }
+    op("generic T::new_byte_array(), T = Locked<HeapByteArray>");
+    let g1: Locked<HeapByteArray<N>> = generic_new::<N, _>();
+    check("generic T::new_byte_array()", reg(g1.as_slice()), "rw-", true, true)?;
+    op("generic T::new_bytes(), T = Locked<HeapByteArray>");
+    let g2: Locked<HeapByteArray<N>> = generic_bytes();
+    check("generic T::new_bytes()", reg(g2.as_slice()), "rw-", true, true)?;
     // all of them live at once: every one still as advertised
     check("new_locked (all constructors live)", reg(a.as_slice()), "rw-", true, true)?;
     check("gen_readonly_locked (all constructors live)", reg(d.as_slice()), "r--", true, true)?;
@@ -1317,9 +1352,14 @@ fn constructors_arr<const N: usize>(base: u64) -> Outcome {
         reg(g.as_slice()),
         reg(h.as_slice()),
         reg(k.as_slice()),
+        reg(nb.as_slice()),
+        reg(fl.as_slice()),
+        reg(g1.as_slice()),
+        reg(g2.as_slice()),
     ];
     op("drop (all)");
     drop((a, b, c, d, e, f, g, h, k));
+    drop((nb, fl, g1, g2));
     released("after dropping every constructed region", &regions, base)
 }
 
@@ -1357,9 +1397,38 @@ fn constructors(i: &Input) -> Outcome {
         g.resize(len, 0x6b);
         check("Locked::default + resize", reg(g.as_slice()), "rw-", true, true)?;
         same("Locked::default + resize", &vec![0x6b; len], g.as_slice())?;
-        let regions = vec![reg(e.as_slice()), reg(f.as_slice()), reg(g.as_slice())];
+        op("<Locked<HeapBytes> as NewBytes>::new_bytes + resize");
+        let mut h = <Locked<HeapBytes> as NewBytes>::new_bytes();
+        if !h.is_empty() {
+            return fail("empty region", format!("{} bytes", h.len()), detail("<Locked<HeapBytes> as NewBytes>::new_bytes() returns an empty region".into()));
+        }
+        h.resize(len, 0x5d);
+        check("NewBytes::new_bytes + resize", reg(h.as_slice()), "rw-", true, true)?;
+        same("NewBytes::new_bytes + resize", &vec![0x5d; len], h.as_slice())?;
+        op("new_bytes + resize -> mprotect_readonly");
+        let h = ok(h.mprotect_readonly(), "mprotect_readonly")?;
+        check("NewBytes::new_bytes + resize -> read-only", reg(h.as_slice()), "r--", true, true)?;
+        op("HeapBytes::new_locked + resize");
+        let mut a = a;
+        a.resize(len, 0x11);
+        check("new_locked + resize", reg(a.as_slice()), "rw-", true, true)?;
+        same("new_locked + resize", &vec![0x11; len], a.as_slice())?;
+        op("HeapBytes::gen_locked + resize");
+        let mut c = c;
+        c.resize(len, 0x22);
+        check("gen_locked + resize", reg(c.as_slice()), "rw-", true, true)?;
+        op("HeapBytes::from_slice_into_locked");
+        let fl = ok(HeapBytes::from_slice_into_locked(&src), "from_slice_into_locked")?;
+        check("from_slice_into_locked", reg(fl.as_slice()), "rw-", true, true)?;
+        same("from_slice_into_locked", &src, fl.as_slice())?;
+        op("new_readonly_locked -> mprotect_readwrite + resize");
+        let mut b = ok(b.mprotect_readwrite(), "mprotect_readwrite")?;
+        b.resize(len, 0x33);
+        check("new_readonly_locked -> read-write + resize", reg(b.as_slice()), "rw-", true, true)?;
+        let regions = vec![reg(e.as_slice()), reg(f.as_slice()), reg(g.as_slice()), reg(h.as_slice()), reg(a.as_slice()), reg(c.as_slice()), reg(fl.as_slice()), reg(b.as_slice())];
         op("drop (all)");
         drop((a, b, c, d, e, f, g));
+        drop((h, fl));
         released("after dropping every constructed region", &regions, base)
     })
 }
@@ -1584,6 +1653,12 @@ pub fn c14(ctx: &mut Ctx) -> Search {
     }
     for len in &fixed {
         ctx.run("constructors", Input::new().u("kind", 1).u("len", *len as u64))?;
+    }
+    if !t {
+        // key / MAC sized regions through every constructor as well
+        for len in [16u64, 64] {
+            ctx.run("constructors", Input::new().u("kind", 1).u("len", len))?;
+        }
     }
     let rl: Vec<usize> = if t { free.clone() } else { vec![0, 1, 16, 64, ps - 1, ps, ps + 1, 2 * ps, 2 * ps + 1, 10000] };
     for a in &rl {
@@ -2101,7 +2176,245 @@ fn refuse_sequence(i: &Input) -> Outcome {
     })
 }
 
-pub const C19: Registry = &[("refuse_entry", refuse_entry), ("refuse_sequence", refuse_sequence)];
+// ------------------------------------------------------------------------------------------- nothing left behind on a refusal ----
+//
+// A refused lock request makes the constructor return early.  Whatever secret it had already derived at that point must have
+// been wiped: the dead part of the stack (the frames of the call that just returned) is searched for the 32-byte shared
+// secret.  The needle is computed by libsodium on ANOTHER thread (another stack) and only ever held in masked form, so neither
+// the oracle nor the search can be what is found.  On a tree that asks for the locked region first, nothing has been derived
+// when the refusal arrives; the search is silent by construction there.
+
+const STACK_MASK: u8 = 0xa5;
+/// the operation runs this far below the case body's frame, so that the shallow frames of what follows do not overwrite it
+const DEEP_PAD: usize = 64 * 1024;
+/// how far below the searching frame the dead stack is read
+const SCAN_WINDOW: usize = 512 * 1024;
+
+/// Searches the stack of the current thread, from SCAN_WINDOW bytes below this frame up to it, for `masked[i] ^ STACK_MASK`.
+#[inline(never)]
+fn stack_holds(masked: &[u8]) -> bool {
+    let marker = 0u8;
+    let top = std::hint::black_box(&marker) as *const u8 as usize;
+    let bottom = top - SCAN_WINDOW;
+    let n = masked.len();
+    let mut addr = bottom;
+    while addr + n <= top {
+        let mut k = 0;
+        while k < n {
+            let b = unsafe { std::ptr::read_volatile((addr + k) as *const u8) };
+            if b ^ STACK_MASK != masked[k] {
+                break;
+            }
+            k += 1;
+        }
+        if k == n {
+            return true;
+        }
+        addr += 1;
+    }
+    false
+}
+
+/// maps (and clears) the part of the stack the search reads
+#[inline(never)]
+fn clear_deep() {
+    let mut z = [0u8; SCAN_WINDOW + DEEP_PAD];
+    std::hint::black_box(&mut z);
+}
+
+#[inline(never)]
+fn plant(masked: &[u8]) {
+    let mut local = [0u8; 32];
+    for (l, m) in local.iter_mut().zip(masked.iter()) {
+        *l = m ^ STACK_MASK;
+    }
+    std::hint::black_box(&mut local);
+}
+
+/// Runs `f` DEEP_PAD bytes below the caller and hands its result up WITHOUT touching it: nothing is called between the return
+/// of `f` and the return to the caller, so the dead frames of `f` (and of everything it called) stay as `f` left them until the
+/// caller -- whose own frames are at least DEEP_PAD bytes higher -- has searched them.  (A wrapper that inspects or drops the
+/// result itself overwrites the first few dozen bytes below its frame, exactly where the callee's locals were.)
+#[inline(never)]
+fn deep<T>(f: impl FnOnce() -> T) -> T {
+    let mut pad = [0u8; DEEP_PAD];
+    std::hint::black_box(&mut pad);
+    let r = deep_inner(f);
+    std::hint::black_box(&mut pad);
+    r
+}
+
+#[inline(never)]
+fn deep_inner<T>(f: impl FnOnce() -> T) -> T {
+    f()
+}
+
+const PRECALC_VARIANTS: &[&str] = &[
+    "PrecalcSecretKey::precalculate_locked",
+    "PrecalcSecretKey::precalculate_readonly_locked",
+    "LockedKeyPair::precalculate_locked",
+    "LockedROKeyPair::precalculate_readonly_locked",
+];
+
+type BoxLockedKp = dryoc::keypair::KeyPair<Locked<HeapByteArray<32>>, Locked<HeapByteArray<32>>>;
+type BoxLockedRoKp = dryoc::keypair::KeyPair<LockedRO<HeapByteArray<32>>, LockedRO<HeapByteArray<32>>>;
+
+/// the untouched result of a precalculation
+enum Precalculated {
+    Rw(Result<dryoc::precalc::PrecalcSecretKey<Locked<HeapByteArray<32>>>, std::io::Error>),
+    Ro(Result<dryoc::precalc::PrecalcSecretKey<LockedRO<HeapByteArray<32>>>, std::io::Error>),
+}
+
+impl Precalculated {
+    /// Some(bytes) = Ok (the precalculated key), None = Err
+    fn bytes(self) -> Option<Vec<u8>> {
+        match self {
+            Precalculated::Rw(r) => r.ok().map(|k| k.as_slice().to_vec()),
+            Precalculated::Ro(r) => r.ok().map(|k| k.as_slice().to_vec()),
+        }
+    }
+}
+
+/// Runs the precalculation DEEP_PAD bytes below the caller.
+fn precalc_deep(variant: usize, pk: &StackByteArray<32>, sk: &StackByteArray<32>, kp_l: Option<&BoxLockedKp>, kp_r: Option<&BoxLockedRoKp>) -> Precalculated {
+    use dryoc::precalc::PrecalcSecretKey;
+    match variant {
+        0 => deep(|| Precalculated::Rw(PrecalcSecretKey::precalculate_locked(pk, sk))),
+        1 => deep(|| Precalculated::Ro(PrecalcSecretKey::precalculate_readonly_locked(pk, sk))),
+        2 => {
+            let kp = kp_l.expect("locked key pair");
+            deep(|| Precalculated::Rw(kp.precalculate_locked(pk)))
+        }
+        _ => {
+            let kp = kp_r.expect("read-only locked key pair");
+            deep(|| Precalculated::Ro(kp.precalculate_readonly_locked(pk)))
+        }
+    }
+}
+
+/// variant (index into PRECALC_VARIANTS), errno, sk, peer_sk: the precalculation of the shared secret into locked memory with
+/// its lock request refused.  It must return Err (no panic), and must not leave the shared secret -- which it may or may not have
+/// derived before asking for the region -- in its dead stack frames.  Afterwards, with the refusal lifted, the same call
+/// succeeds and yields libsodium's crypto_box_beforenm.
+fn refused_precalc_wipes(i: &Input) -> Outcome {
+    isolated(|| {
+        let (variant, en) = (i.num("variant") as usize, errno_of(i));
+        if variant >= PRECALC_VARIANTS.len() {
+            panic!("{} variant must be 0..{}", HARNESS, PRECALC_VARIANTS.len() - 1);
+        }
+        let name = PRECALC_VARIANTS[variant];
+        let (sk, peer_sk) = (i.arr::<32>("sk"), i.arr::<32>("peer_sk"));
+        // public keys and the needle: libsodium, on another thread; the shared secret comes back masked
+        let (pk, peer_pk, masked): ([u8; 32], [u8; 32], Vec<u8>) = match std::thread::spawn(move || {
+            let (pk, peer_pk) = (crate::so::scalarmult_base(&sk), crate::so::scalarmult_base(&peer_sk));
+            let shared = crate::so::box_beforenm(&peer_pk, &sk);
+            (pk, peer_pk, shared.map(|k| k.iter().map(|b| b ^ STACK_MASK).collect::<Vec<u8>>()))
+        })
+        .join()
+        {
+            Ok((a, b, Some(m))) => (a, b, m),
+            _ => panic!("{} libsodium refuses the key pair", HARNESS),
+        };
+        let base = vmlck_kb();
+        let (spk, ssk) = (stack_arr::<32>(&peer_pk), stack_arr::<32>(&sk));
+        op("earlier regions: the key pair in locked memory");
+        let kp_l: Option<BoxLockedKp> = if variant == 2 {
+            Some(dryoc::keypair::KeyPair {
+                public_key: ok(HeapByteArray::<32>::from_slice_into_locked(&pk), "from_slice_into_locked")?,
+                secret_key: ok(HeapByteArray::<32>::from_slice_into_locked(&sk), "from_slice_into_locked")?,
+            })
+        } else {
+            None
+        };
+        let kp_r: Option<BoxLockedRoKp> = if variant == 3 {
+            Some(dryoc::keypair::KeyPair {
+                public_key: ok(HeapByteArray::<32>::from_slice_into_readonly_locked(&pk), "from_slice_into_readonly_locked")?,
+                secret_key: ok(HeapByteArray::<32>::from_slice_into_readonly_locked(&sk), "from_slice_into_readonly_locked")?,
+            })
+        } else {
+            None
+        };
+        let mut earlier: Vec<Adv> = Vec::new();
+        if let Some(k) = &kp_l {
+            earlier.push(adv("locked public key", k.public_key.as_slice(), "rw-", true, Some(&pk)));
+            earlier.push(adv("locked secret key", k.secret_key.as_slice(), "rw-", true, Some(&sk)));
+        }
+        if let Some(k) = &kp_r {
+            earlier.push(adv("read-only locked public key", k.public_key.as_slice(), "r--", true, Some(&pk)));
+            earlier.push(adv("read-only locked secret key", k.secret_key.as_slice(), "r--", true, Some(&sk)));
+        }
+        // the search itself: clean slate, then the positive control
+        clear_deep();
+        let control: Vec<u8> = (0..32u8).map(|j| j.wrapping_mul(37).wrapping_add(11)).collect();
+        if stack_holds(&control) {
+            panic!("{} the control pattern is on the stack before it was planted", HARNESS);
+        }
+        deep(|| plant(&control));
+        if !stack_holds(&control) {
+            panic!("{} the stack search does not find a pattern left in a dead frame {} bytes below", HARNESS, DEEP_PAD);
+        }
+        if stack_holds(&masked) {
+            panic!("{} the shared secret is on this stack before dryoc computed it", HARNESS);
+        }
+        let how = format!("its lock request refused with {}", errno_name(en));
+        op(format!("{} with {}", name, how));
+        let (req0, ref0) = (LOCK_REQS.load(SeqCst), REFUSED.load(SeqCst));
+        refuse_from_next(1, en);
+        let r = catch(|| precalc_deep(variant, &spk, &ssk, kp_l.as_ref(), kp_r.as_ref()));
+        // (first the search, then everything else: the result is still untouched)
+        let leaked = stack_holds(&masked);
+        refuse_off();
+        let (req, refd) = (LOCK_REQS.load(SeqCst) - req0, REFUSED.load(SeqCst) - ref0);
+        match r.map(|p| p.bytes()) {
+            Err(msg) => {
+                if msg.starts_with(HARNESS) {
+                    std::panic::resume_unwind(Box::new(msg));
+                }
+                return fail("Err (the refused lock reported to the caller)", "panic", detail(format!("{} panicked instead of returning an error ({}): {}", name, how, msg)));
+            }
+            Ok(Some(_)) if refd > 0 => {
+                return fail("Err", "Ok", detail(format!("{} returned Ok although {} of its {} lock request(s) was refused ({})", name, refd, req, how)));
+            }
+            Ok(Some(_)) => panic!("{} {} issued no lock request", HARNESS, name),
+            Ok(None) => {}
+        }
+        if leaked {
+            let secret: Vec<u8> = masked.iter().map(|b| b ^ STACK_MASK).collect();
+            return fail(
+                "no copy of the shared secret in the dead stack frames after the refused call",
+                format!("the 32 bytes {} (= crypto_box_beforenm(peer public key, secret key)) are in the stack below the caller", hex(&secret)),
+                detail(format!(
+                    "{} returned Err ({}), but left the shared secret it had already derived unwiped on the stack (searched {} KiB below the calling frame)",
+                    name,
+                    how,
+                    SCAN_WINDOW / 1024
+                )),
+            );
+        }
+        op("(refusal over) check the earlier regions, then the same call again");
+        let eh = Held { _obj: Box::new(()), adv: earlier };
+        verify_held(&eh, "after the refused operation")?;
+        let again = match precalc_deep(variant, &spk, &ssk, kp_l.as_ref(), kp_r.as_ref()).bytes() {
+            Some(k) => k,
+            None => {
+                if GENUINE.load(SeqCst) > 0 {
+                    return fail(SKIP_ENV, "", format!("the kernel refused a lock request in {}", name));
+                }
+                return fail("Ok", "Err", detail(format!("{} failed although no lock request was refused any more", name)));
+            }
+        };
+        let masked_again: Vec<u8> = again.iter().map(|b| b ^ STACK_MASK).collect();
+        if masked_again != masked {
+            return fail("libsodium's crypto_box_beforenm", hex(&again), detail(format!("{} (lock granted) differs from libsodium's shared secret", name)));
+        }
+        let regions: Vec<Region> = eh.adv.iter().map(|a| a.r).collect();
+        op("drop (all)");
+        drop((kp_l, kp_r));
+        released("after dropping the key pair", &regions, base)
+    })
+}
+
+pub const C19: Registry = &[("refuse_entry", refuse_entry), ("refuse_sequence", refuse_sequence), ("refused_precalc_wipes", refused_precalc_wipes)];
 
 pub fn c19(ctx: &mut Ctx) -> Search {
     if !can_lock() {
@@ -2117,6 +2430,21 @@ pub fn c19(ctx: &mut Ctx) -> Search {
             }
             for en in errnos {
                 ctx.run("refuse_entry", Input::new().u("entry", e as u64).u("j", *j).u("errno", en as u64))?;
+            }
+        }
+    }
+    // the precalculation entry points: a refusal leaves nothing derived behind (own generator state)
+    {
+        let mut rng_w = Rng::new(0xC19D + ctx.thorough as u64);
+        for round in 0..(if ctx.thorough { 3 } else { 1 }) {
+            for variant in 0..PRECALC_VARIANTS.len() as u64 {
+                let (sk, peer_sk) = (rng_w.arr::<32>(), rng_w.arr::<32>());
+                for (k, en) in errnos.iter().enumerate() {
+                    if !ctx.thorough && round == 0 && k != (variant as usize) % 3 && k != 0 {
+                        continue;
+                    }
+                    ctx.run("refused_precalc_wipes", Input::new().u("variant", variant).u("errno", *en as u64).b("sk", &sk).b("peer_sk", &peer_sk))?;
+                }
             }
         }
     }
